@@ -137,7 +137,7 @@ def balance(rs, cost, shard):
 
 # per-kind floors (quick tier at seeds 1-3 gives app 95, proof ~270, upd ~275, rw ~900, seq ~180, rwx ~62; the counts follow from
 # the flags by construction): a generator that silently emits (almost) nothing of a kind is a broken obligation
-FLOORS = {"app": 60, "proof": 150, "upd": 150, "rw": 500, "seq": 100, "rwx": 30}
+FLOORS = {"app": 60, "proof": 150, "upd": 150, "rw": 500, "seq": 100, "rwx": 30, "big": 15}
 
 
 def evaluate(ck, recs, floors=False):
@@ -158,6 +158,16 @@ def evaluate(ck, recs, floors=False):
                  theorem_or_correspondence="harness c11 vs pkg/trie/rmt")
         f["spec_violated"] = True
         ck.failures.append(f)
+    # large sizes: Go-side consistency only (prediction = Append = batch root; proofs verify / reject another hash)
+    for r in [r for r in recs if r["k"] == "big"]:
+        ck.count()
+        ck.nontrivial(("big", r["n"]))
+        if r.get("panic") or not (r["predict"] and r["batch"] and r["proof"] and r["reject"]):
+            f = dict(kind="input", key="c11:big:%s:spec" % ("panic" if r.get("panic") else "+".join(k for k in ("predict", "batch", "proof", "reject") if not r[k])),
+                     case=r, what="rmt at size %d: Go-side consistency fails: %s" % (r["n"], json.dumps(r)),
+                     theorem_or_correspondence="harness c11 (large sizes, Go side only) vs pkg/trie/rmt")
+            f["spec_violated"] = True
+            ck.failures.append(f)
     for kind, (typ, fn, term, shard) in KINDS.items():
         rs = [r for r in recs if r["k"] == kind]
         if not rs:
@@ -238,7 +248,7 @@ def run(ck):
     if ck.tier == "quick":
         args = ["-nmax", "70", "-pexp", "8", "-nsub", "6", "-nproof", "110", "-pmax", "70", "-nupd", "90", "-rwmax", "40", "-nseq", "40"]
     else:
-        args = ["-nmax", "600", "-pexp", "11", "-nsub", "8", "-nproof", "1500", "-pmax", "300", "-nupd", "800", "-rwmax", "110", "-nseq", "600", "-nrwx", "400", "-ancq", "64"]
+        args = ["-nmax", "600", "-pexp", "11", "-nsub", "8", "-nproof", "1500", "-pmax", "300", "-nupd", "800", "-rwmax", "110", "-nseq", "600", "-nrwx", "400", "-ancq", "64", "-bigexp", "20"]
     recs = corpus(ck, binp)
     main = run_capture(ck, binp, args)
     if main is None:
@@ -262,7 +272,7 @@ def run(ck):
                       "random order, a position twice with equal / different data; scripts of Append / "
                       "Update / re-open-from-store steps (explicit duplicate/aliasing/power-of-two scripts, each also with a re-open after "
                       "every step, and random scripts) continuing on the re-opened object, all values of the final list queried; updates: every non-empty position subset for n<=5 and random sets, "
-                      "followed by one Append; right witnesses: every position 0..n+1 for every n<=40 (110 thorough); right-witness reconstruction on arbitrary/inconsistent (index, append path, witness) triples under a 3 s watchdog. Distinct = by "
+                      "followed by one Append; right witnesses: every position 0..n+1 for every n<=40 (110 thorough); large sizes 2^k-1, 2^k, 2^k+1 for k = 9..14 (20 thorough), Go side only (predicted root = Append root = batch root, proofs of first/middle/last leaf verify and reject another hash); right-witness reconstruction on arbitrary/inconsistent (index, append path, witness) triples under a 3 s watchdog. Distinct = by "
                       "(kind, n, query/update set or position).")
     ck.cov["exhaustive"] = True
     ck.extra["exhaustive_domain"] = "sizes 0..N for append; all subsets for n<=nsub; all witness positions for n<=rwmax"
